@@ -284,6 +284,7 @@ OBLIGATIONS['C06'] += [('mac::*::*__nec_payload', 'nec'), ('encrypt::*::*__nec_*
 OBLIGATIONS['C17'] += [     # the decoders that classify labels through the registries
     ('cwt::ClaimsSet::from_cbor_value', 'body'), ('header::Header::from_cbor_value_nested', 'body'), ('key::CoseKey::from_cbor_value', 'body'),
 ]
+OBLIGATIONS['C06'] += [('vwirehop::*', 'lemma')]
 # C06's wire hop (serialise the created message, parse it back, verify) is exercised end to end by an always-on bounded probe
 # (create -> to_vec -> from_slice -> verify, what both closures saw is compared); the encoders / decoders themselves are
 # obligations of C07, C09 and C11, so that a change to, say, what a decoder accepts is not reported for C06.
